@@ -801,7 +801,7 @@ fn generate_sequential(ctx: &Ctx) {
   // quick: the closure run with the extended alphabet below has the same cap and offers every operation of the
   // basic alphabet too, so the basic run would repeat a part of it
   if ctx.thorough() {
-    let st = vx::sr::run(ctx, &format!("(a1) JwkMemStore histories, <= {cap} issued ids, to closure"), None, |col| {
+    let st = vx::sr::run_par(ctx, &format!("(a1) JwkMemStore histories, <= {cap} issued ids, to closure"), |col| {
       KModel::<Mem>::new(cap, false, col, diverged.clone())
     });
     for i in 0..st.unique {
@@ -818,7 +818,7 @@ fn generate_sequential(ctx: &Ctx) {
   // the extended op alphabet (known key material under other metadata, unregistered alg, the public part of a
   // generated key, own public key under another / no kid, never-issued ids derived from issued ones)
   let cap_x = 3u8;
-  let st = vx::sr::run(ctx, &format!("(a1) JwkMemStore histories, extended op alphabet, <= {cap_x} issued ids, to closure"), None, |col| {
+  let st = vx::sr::run_par(ctx, &format!("(a1) JwkMemStore histories, extended op alphabet, <= {cap_x} issued ids, to closure"), |col| {
     KModel::<Mem>::new(cap_x, false, col, diverged.clone()).extended(true)
   });
   for i in 0..st.unique {
